@@ -1093,6 +1093,8 @@ static void MPSreadCols(MPSInput& mps, const LPRowSetBase<Rational>& rset, const
       {
          if((idx = rnames.number(mps.field2())) < 0)
             mps.entryIgnored("Column", mps.field1(), "row", mps.field2());
+         else if(vec.pos(idx) >= 0)
+            mps.entryIgnored("Duplicate entry of column", mps.field1(), "row", mps.field2());
          else if(val != 0)
             vec.add(idx, val);
       }
@@ -1117,6 +1119,8 @@ static void MPSreadCols(MPSInput& mps, const LPRowSetBase<Rational>& rset, const
          {
             if((idx = rnames.number(mps.field4())) < 0)
                mps.entryIgnored("Column", mps.field1(), "row", mps.field4());
+            else if(vec.pos(idx) >= 0)
+               mps.entryIgnored("Duplicate entry of column", mps.field1(), "row", mps.field4());
             else if(val != 0)
                vec.add(idx, val);
          }
